@@ -477,6 +477,11 @@ def check_trace(trace, max_attempts: int):
                 exhausted += 1
                 kinds = facts.setdefault("_exh", [])
                 kinds.append((len([x for x in s["naks"]]), n))
+            elif n >= max_attempts and s["outcome"] == "cancelled" and any(e >= s["att"][-1] + T_MIN - EPS for e in s["errs"]):
+                # nobody waits for this frame any more (its caller was cancelled), so the trace does not show when the
+                # host stopped retrying: an ERROR frame delivered once the last attempt had been waiting for at least
+                # the minimum timeout may have coincided with the budget running out - both are events then
+                ambiguous += 1
             elif n >= max_attempts and any(abs(e - s["end"]) < EPS for e in s["errs"]) and \
                     (s["end"] - s["att"][-1] >= T_MIN - EPS or any(nk >= s["att"][-1] - EPS for nk in s["naks"])):
                 # the budget ran out (last timeout, or a NAK for the last attempt) in the very instant an ERROR
